@@ -161,7 +161,10 @@ def num(v):
 def cell_eq(kind, src, out, out_na):
     """source canonical value vs output canonical value (after NumPy promotion)."""
     if vecgen.canon_is_na(kind, src):
-        return bool(out_na)
+        # a float NaN that lands in an object column (bool + float + synthesised None parts) is still the
+        # value NaN, which is all the property demands ("values ... of any other column"); object
+        # columns flag only None as missing
+        return bool(out_na) or (kind == "float" and out == "nan")
     if out_na:
         return False
     if kind in ("int", "float", "bool"):
